@@ -46,7 +46,12 @@ def canon_log(net, lo):
     for e in net.log[lo:]:
         if e[0] == "send":
             d = scpsim.decode(e[2])
-            out.append(["send", e[1], d["args"][0] if d["args"] else -1, d["seq"], e[3],
+            cid = d["args"][0] if d["args"] else -1
+            # the transmission "carries command cid" only if the WHOLE datagram (but for the sequence number) is
+            # that command as submitted; anything else is named -1000000 - arg1 (the model has no such send)
+            if cid < 0 or scpsim.make_request(scpsim.cmd_fields(cid), d["seq"]) != bytes(e[2]):
+                cid = -1000000 - cid
+            out.append(["send", e[1], cid, d["seq"], e[3],
                         hashlib.sha1(e[2][:12] + e[2][14:]).hexdigest()[:10]])
         elif e[0] == "select":
             t = e[1]
@@ -139,7 +144,8 @@ def run_case(c):
             except Exception as e:                               # noqa
                 outcome = ["other", type(e).__name__, str(e)[:200]]
             trace = canon_log(net, lo)
-            pending = [[p[0]] + dg(p[2]) for p in getattr(net.policy, "pending", [])]
+            pending = ([[p[0]] + dg(p[2]) for p in getattr(net.policy, "pending", [])] +
+                       [[a] + dg(b) for a, b in zip(net.buf_arrival, net.buf)])     # ... and unread in the socket
             bursts.append(dict(trace=trace, outcome=outcome, start=start, ret=ret, end_now=net.now,
                                pending=pending,   # replies in the simulated network / socket not yet read: [arrival, rc, seq, src]
                                events=[[[dg(b) for b in ds], t] for ds, t in net.events[elo:]],
